@@ -297,6 +297,12 @@ where
 				ValueType::Arraylike { element_type: b } => a.is_like(b),
 				_ => self == other,
 			},
+			ValueType::Struct { .. } | ValueType::Word { .. } => match other
+			{
+				// The element of an array that is accessed as `a[i].member`.
+				ValueType::UnresolvedStructOrWord { identifier: None } => true,
+				_ => self == other,
+			},
 			_ => self == other,
 		}
 	}
